@@ -1211,7 +1211,17 @@ def c18_code_str(c):
 # ---- binding stream: explicit graphs with permuted vertex lists, duplicate ids, several edges
 def c18_binding_graphs(rng, n):
     out = []
-    for _ in range(n):
+    # every consistent single-edge graph first (built, like all edges of this stream, with the required arguments only: offset_id stays None), vertices
+    # listed in either order: each of them must be accepted -- whatever the draw
+    for k in range(4):
+        for rev in (False, True):
+            vs = [(3, k), (8, k)]
+            out.append(([(0, [3, 8], (PDIM[KINDS[k]],) * 2, k, 0)], list(reversed(vs)) if rev else vs))
+    for (ka, kb) in sorted(LM_PAIRS):
+        for rev in (False, True):
+            vs = [(3, KINDS.index(ka)), (8, KINDS.index(kb))]
+            out.append(([(1, [3, 8], (PDIM[kb],) * 2, KINDS.index(kb), KINDS.index(ka))], list(reversed(vs)) if rev else vs))
+    for _ in range(max(0, n - len(out))):
         m = rng.randint(1, 6)
         ids_pool = list(range(0, rng.choice([3, 6, 9])))
         vs = [(rng.choice(ids_pool), rng.randrange(4)) for _ in range(m)]
